@@ -1683,6 +1683,10 @@ def M_prim_ne(it, ctx, args, st):
     yield st, z3.Not(val_eq(st.deref_all(args[0]), st.deref_all(args[1])))
 
 
+def M_option_default(it, ctx, args, st):
+    yield st, it.none
+
+
 def M_usize_min(it, ctx, args, st):
     yield st, z3.If(z3.ULT(args[0], args[1]), args[0], args[1])
 
@@ -2069,6 +2073,7 @@ MODELS = [
     (P + r'f(?:64|32)::<impl f(?:64|32)>::is_sign_positive|' + P + r'num::<impl f(?:64|32)>::is_sign_positive', M_f64_is_sign_positive),
     (r'<[iu](?:8|16|32|64|128|size) as ' + P + r'clone::Clone>::clone|<bool as ' + P + r'clone::Clone>::clone', M_clone),
     (r'<(?:&.*|' + P + r'(?:option::Option|result::Result|vec::Vec|string::String|boxed::Box|collections::\w+)<?.*>?) as ' + P + r'clone::Clone>::clone', M_clone),
+    (r'<' + P + r'option::Option<.*> as ' + P + r'default::Default>::default', M_option_default),
     (r'<' + P + r'option::Option<.*> as ' + P + r'cmp::PartialEq>::eq', M_prim_eq), (r'<' + P + r'option::Option<.*> as ' + P + r'cmp::PartialEq>::ne', M_prim_ne),
     (r'<\{async fn body of .*\} as (?:futures_core|std::future|core::future)::Future>::poll', M_poll_async_body),
     (r'<' + P + r'boxed::Box<dyn .*> as ' + P + r'convert::From<.*>>::from', M_identity),
